@@ -174,4 +174,30 @@ CHECKS['C20'] = {
     'level_note': 'The server binary (accept loop, query_result_to_response) is exercised by the server leg when built; hang detection relies on the worker watchdog.',
 }
 
+def e1_check(cid, text, min_q, min_t, counters_q):
+    return {
+        'level': 'fault_enumeration',
+        'exhaustive': True,
+        'rule': 'seeded histories in 7 shapes (autocommit, committing sessions, rolled-back sessions, checkpoints, long log with large rows, 16-page cache, VACUUM) run once with the I/O tap recording every '
+                'file mutation (create / write / set_len on db file and log) in call order together with CALL/ACK markers; then EVERY prefix of the mutation stream is materialised as a crash image and opened with '
+                'Database::open; recovered rows (unique ids and payloads) are compared with the model state of exactly the transactions acknowledged before that point (or that state plus the single in-flight commit). '
+                'Exhaustive over the crash points of each generated history, sampled over histories. Non-trivial = every image opened after the CREATE TABLE was acknowledged; distinct = (history, prefix length).',
+        'legs': {'quick': [{'flavour': 'prod', 'shards': 16}], 'thorough': [{'flavour': 'prod', 'shards': 16, 'timeout': 5400}]},
+        'min_evaluations': {'quick': min_q, 'thorough': min_t},
+        'min_counters': {'quick': counters_q, 'thorough': counters_q},
+        'assumptions': ['crash model = process death at whole-call granularity: every write/set_len the engine issued is in the image, nothing later (no torn or reordered writes)',
+                        'the tap sees every file mutation because all file I/O goes through DBFile', 'release-equivalent build, feature verif on'],
+        'technique': 'crash-point enumeration over the recorded I/O stream (every prefix materialised and recovered by the real engine) with an acknowledged-transactions model as oracle',
+        'level_text': text,
+        'level_note': 'Shapes long-log, small-cache-steal and with-vacuum have open findings and report under one coarse signature per class; the four clean shapes report exact phase/feature signatures, so any divergence there is new.',
+    }
+
+
+CHECKS['C01'] = e1_check('C01', 'For each of ~340 (quick) / 4500 (thorough) histories every crash point is recovered (~25k / 350k images); every row of a transaction acknowledged before the crash point must be present after Database::open. '
+                         'Classes: acked-lost.', 15000, 200000, {'crash_images_opened': 15000, 'crash_images_after_log_left_block0': 3000, 'crash_points.checkpoint': 100})
+CHECKS['C02'] = e1_check('C02', 'Same images as C01, opposite direction: the recovered contents must not contain any row of a transaction that was open, rolled back or failed at the crash point, nor part of the in-flight one. '
+                         'Classes: unacked-visible (rolled-back / still-open / partial-in-flight / failed-statement).', 15000, 200000, {'crash_images_opened': 15000, 'crash_points.rollback': 50, 'crash_points.in-transaction': 500})
+CHECKS['C08'] = e1_check('C08', 'Every crash image must open and be readable; for a stratified sample of first-level images the recovery itself is recorded and every prefix of ITS mutation stream is opened again (second level): '
+                         'it must open and converge to the contents of the uninterrupted recovery; recover-close-open must not change contents.', 15000, 200000, {'crash_images_opened': 15000, 'second_level_images_opened': 200, 'idempotence_checks': 50})
+
 NOT_APPLICABLE = [{'property_id': c, 'reason': 'check not built yet in this session (work in progress, see DESIGN.md)'} for c in ALL if c not in CHECKS]
